@@ -131,7 +131,7 @@ func (c *Controller) ProduceProposal(evidence *bft.ByzantineEvidence, vdf *crypt
 	var clean bool
 	c.log.Debugf("Producing proposal as leader")
 	// once done proposing, 'reset' the proposal mode back to default to 'accept all'
-	defer c.FSM.Reset()
+	defer c.resetFSM()
 	// loop until we get a clean pass to prevent mid-proposal races
 	for {
 		if clean, err = func() (bool, lib.ErrorI) {
@@ -194,7 +194,7 @@ func (c *Controller) ProduceProposal(evidence *bft.ByzantineEvidence, vdf *crypt
 // ValidateProposal() fully validates a proposal in the form of a quorum certificate and resets back to begin block state
 func (c *Controller) ValidateProposal(rcBuildHeight uint64, qc *lib.QuorumCertificate, evidence *bft.ByzantineEvidence) (blockResult *lib.BlockResult, err lib.ErrorI) {
 	// reset the mempool at the beginning of the function to preserve the state for CommitCertificate()
-	c.FSM.Reset()
+	c.resetFSM()
 	// log the beginning of proposal validation
 	c.log.Debugf("Validating proposal from leader")
 	// configure the FSM in 'consensus mode' for validator proposals
@@ -259,11 +259,11 @@ func (c *Controller) CommitCertificate(qc *lib.QuorumCertificate, block *lib.Blo
 	// cast the store to ensure the proper store type to complete this operation
 	storeI := c.FSM.Store().(lib.StoreI)
 	// reset the store once this code finishes; if code execution gets to `store.Commit()` - this will effectively be a noop
-	defer c.FSM.Reset()
+	defer c.resetFSM()
 	// if the block result isn't 'pre-calculated'
 	if blockResult == nil {
 		// reset the FSM to ensure stale proposal validations don't come into play
-		c.FSM.Reset()
+		c.resetFSM()
 		// restore root dex cache from the embedded certificate result for deterministic replay
 		if qc.Results != nil && qc.Results.RootDexBatch != nil {
 			c.FSM.SetRootDexCache(qc.Results.RootDexBatch)
@@ -374,11 +374,11 @@ func (c *Controller) CommitCertificateParallel(qc *lib.QuorumCertificate, block 
 	// cast the store to ensure the proper store type to complete this operation
 	storeI := c.FSM.Store().(lib.StoreI)
 	// reset the store once this code finishes; if code execution gets to `store.Commit()` - this will effectively be a noop
-	defer c.FSM.Reset()
+	defer c.resetFSM()
 	// if the block result isn't 'pre-calculated'
 	if blockResult == nil {
 		// reset the FSM to ensure stale proposal validations don't come into play
-		c.FSM.Reset()
+		c.resetFSM()
 		// restore root dex cache from the embedded certificate result for deterministic replay
 		if qc.Results != nil && qc.Results.RootDexBatch != nil {
 			c.FSM.SetRootDexCache(qc.Results.RootDexBatch)
